@@ -8,6 +8,7 @@ import Bridge.LayerAbs
 import PtaProofs.Lemmas.Semantics
 import PtaProofs.Lemmas.LayerTag
 import PtaProofs.Lemmas.LayerDetect
+import PtaProofs.Lemmas.LayerConsistent
 namespace Pta
 open PtaSpec
 
@@ -28,11 +29,12 @@ def matchTail (g : PGraph Str) (m : LayerMap) (b : Behavior) (d : Bool) (subs ob
 
 theorem matchLayerRule_eq (mt : Str → Str → Bool) (g : PGraph Str) (a : LArch) (b : Behavior) (d : Bool)
     (subjects objects subs objs : List Filter)
-    (h1 : convertFilters mt g.nodes subjects = .ok subs) (h2 : convertFilters mt g.nodes objects = .ok objs) :
+    (h1 : convertFilters mt g.nodes subjects = .ok subs) (h2 : convertFilters mt g.nodes objects = .ok objs)
+    (hc : (updateLayerMap mt g.nodes a (((subjects ++ objects).filter (·.isRegex)).map (·.id))).consistent = true) :
     matchLayerRule mt g a b d subjects objects =
       matchTail g (updateLayerMap mt g.nodes a (((subjects ++ objects).filter (·.isRegex)).map (·.id))) b d subs objs := by
   unfold matchLayerRule matchTail
-  simp only [h1, h2]
+  simp only [h1, h2, hc, Bool.not_true, Bool.false_eq_true, if_false]
   rfl
 
 /-! ### near / far ends of an import -/
@@ -98,6 +100,8 @@ structure LCtx (a : Arch) (ls : Layers) (r : LRuleSpec) (m : LayerMap) (S O : Li
   one : O ≠ []
   objNe : r.anything = false → ∀ on ∈ r.objects, ls.get on ≠ []
   subjNotObj : r.anything = false → r.subject ∉ r.objects
+  /-- the check of the repaired `_update_layer_mapping` passes -/
+  cons : m.consistent = true
 
 section core
 variable {a : Arch} {g : PGraph Str} {ls : Layers} {r : LRuleSpec} {m : LayerMap} {S O : List Name}
